@@ -14,6 +14,8 @@
 //@ end
 //@ inline nitrogql_utils crates/utils/src mods=capitalize,chars,clone_into all=nitrogql_ast,graphql_type_system,nitrogql_semantics,sourcemap_writer,nitrogql_utils,nitrogql_config_file,nitrogql_printer
 //@ end
-//@ inline nitrogql_printer crates/printer/src mods=jsdoc,ts_types,utils all=nitrogql_ast,graphql_type_system,nitrogql_semantics,sourcemap_writer,nitrogql_utils,nitrogql_config_file,nitrogql_printer nolib
+//@ inline nitrogql_config_file crates/config-file/src mods=type_target all=nitrogql_ast,graphql_type_system,nitrogql_semantics,sourcemap_writer,nitrogql_utils,nitrogql_config_file,nitrogql_printer
+//@ end
+//@ inline nitrogql_printer crates/printer/src mods=jsdoc,ts_types,utils,selection_tree:operation_type_printer/selection_tree all=nitrogql_ast,graphql_type_system,nitrogql_semantics,sourcemap_writer,nitrogql_utils,nitrogql_config_file,nitrogql_printer nolib
 //@   reduce jsdoc print_description
 //@ end
